@@ -83,7 +83,9 @@ def contexts():
     ab = lambda h: ("grp", ("seq", (h, NEVER)))  # noqa: E731  inner commits, outer fails
 
     def simple(f):
-        return lambda h, i: ((), ("", f(h)))
+        g = lambda h, i: ((), ("", f(h)))  # noqa: E731
+        g.expr = f
+        return g
 
     ctx = {
         "plain": simple(lambda h: h),
@@ -159,6 +161,10 @@ C01_BOUNDS = {
 }
 
 
+CTX2_QUICK = ["seq_left", "seq_right", "alt_abandon", "alt_second", "opt_abandon", "star_abandon", "and", "not", "not_not", "push", "prepushed", "max_abandon", "opt_push_abandon"]
+CTX2_LEAN = ["seq_right", "alt_abandon", "opt_abandon", "star_abandon", "not", "push", "prepushed"]
+
+
 def c01_bounds(tier: str, lean: bool = False):
     b = C01_BOUNDS[tier]
     if lean and tier == "quick":
@@ -216,6 +222,20 @@ def c01_specs(tier: str, kmode: str = "zero", terminals=T_FULL, soi_free: bool =
                         continue  # e.g. a repetition context around a nullable hole
                     starts.append((extra, start))
                 out.extend(batch_specs(starts, TRIVIA[tv] + HELPERS, ins, kmode, f"ctx({cname},hole<={hole_n},{tv})"))
+    # contexts composed with contexts (expressions of 6-12 nodes that the size-bounded enumeration cannot reach): outer(inner(terminal))
+    names = CTX2_LEAN if (lean and tier == "quick") else (CTX2_QUICK if tier == "quick" else [c for c in ctxs if hasattr(ctxs[c], "expr")])
+    for tv in (("none",) if tier == "quick" else ("none", "ws")):
+        sigma = (sigma_core or SIGMA_CORE) + TRIVIA_SIGMA[tv] + extra_sigma
+        ins = inputs(sigma, length_for(sigma, min(mi, 45)))
+        rules_env = TRIVIA[tv] + HELPERS
+        for outer in names:
+            starts = []
+            for inner in names:
+                for t in terminals:
+                    body = ctxs[outer].expr(("grp", ctxs[inner].expr(t)))
+                    if gast.well_formed(rules_env + (("x", "", body),)):
+                        starts.append(((), ("", body)))
+            out.extend(batch_specs(starts, rules_env, ins, kmode, f"ctx2({outer},{tv})"))
     return out + extra_specs(kmode, tier)
 
 
@@ -325,6 +345,30 @@ def explicit_trivia_specs(kmode: str = "zero", tier: str = "quick"):
     return out
 
 
+META_LITS = (".", "a.", ".a", "+", "a+", "[", "[a]", "]", "\\", "a\\", "a|b", "|", "(", "(a)", ")", "^", "^a", "$", "a$", "{", "a{1}", "?", "a?", "*", "a*", "-", "a-c", "\\d", "#", " ", "&", "~", "\U0001F600", "e\u0301", "\u00e9")
+
+
+def metachar_specs(kmode: str = "zero", tier: str = "quick"):
+    """Literals made of characters that mean something in a regular expression (and one non-BMP, one combining sequence), in the places the
+    optimizer turns into regular expressions or substring searches: choices of literals, a literal next to a range, case-insensitive
+    literals, stops of the skip idiom."""
+    lits = META_LITS
+    starts = []
+    for i, a in enumerate(lits):
+        for j, b in enumerate(lits):
+            if i != j and (tier == "thorough" or (i + j) % 3 == 0 or len(a) + len(b) <= 2):
+                starts.append(((), ("", ("seq", (("alt", (S(a), S(b))), R("EOI"))))))
+        starts.append(((), ("", ("seq", (("alt", (S(a), ("range", "a", "c"))), R("EOI"))))))
+        starts.append(((), ("", ("seq", (("ci", a), R("EOI"))))))
+        starts.append(((), ("@", ("seq", (NOT_ANY(S(a)), S(a))))))
+        starts.append(((), ("", ("seq", (("star", ("grp", ("alt", (S(a), S("b"))))), R("EOI"))))))
+        starts.append(((), ("", ("seq", (("alt", (("ci", a), S("b"))), R("EOI"))))))
+    ins = sorted(set(lits) | {"", "a", "b", "ab", "aa", "ac", "abc", "a1", "d", "bb", "A", "A.", "aB", "e", "\u0301"} | {x + x for x in lits[:12]} | {"b" + x for x in lits[:12]} | {x + "b" for x in lits[:12]})
+    return batch_specs(starts, HELPERS, tuple(ins), kmode, "metachar-literals")
+
+
+META_RULE_TEXT = ("; plus metachar-literals: choices of two literals, a literal next to a range, case-insensitive literals, skip-idiom stops and repeated choices built from 35 literals made of regular-expression metacharacters "
+                  "(. + [ ] \\ | ( ) ^ $ { ? * - # & ~, blank), a non-BMP character, a combining sequence and its precomposed form, on the literals themselves, doubled, and next to ordinary letters")
 U_CORE_SMALL = (("grp",), ("opt",), ("star",), ("plus",), ("and",), ("not",))
 EXPLICIT_RULE_TEXT = "; plus explicit-loud-trivia: every expression with <= 3 nodes over {\"a\", WHITESPACE, COMMENT} with ( ) ? * + & ! ~ | as the body of a normal / @ / $ / ! rule, where WHITESPACE (and COMMENT) are non-silent implicit rules"
 
@@ -341,4 +385,5 @@ def c01_rule_text():
             "with ( ) ? * + {2} {1,} {,2} {1,2} & ! ~ |, x start-rule modifier x trivia configuration; "
             "(b) contexts: every hole expression placed at top level, left/right of a sequence, as an alternative that commits and is then abandoned ((HOLE ~ \"!\") | ANY*), under ? * + {2} {1,} {,2} {1,2} with the same abandon trick, "
             "under & ! !! , inside PUSH( ), after a pre-pushed stack entry, as the whole body of a rule called with one or two entries on the stack, and as the body of a _ @ $ ! rule called from a normal, an atomic and a compound parent (43 contexts, among them ? {,2} * directly over PUSH( ) and over a rule reference whose body commits and then fails); "
+            "(b2) contexts composed with contexts: outer(inner(terminal)) for every terminal and every pair of contexts from a list of 13 (quick; 7 for the checks that try every start position; thorough: all 30 single-rule contexts, also with WHITESPACE) - expressions of 6 to 12 nodes; "
             "x every string over {a,b,A}+trivia symbols up to the length bound; start rules are batched 40 per grammar and failing cases re-run on the isolated rule" + EXTRA_RULE_TEXT)
